@@ -1,3 +1,5 @@
+#include <cstdio>
+#include <cstdlib>
 #include "dump.h"
 #include <symengine/add.h>
 #include <symengine/mul.h>
@@ -161,6 +163,8 @@ std::string exc_name()
     try {
         throw;
     } catch (const VerifAssertionError &e) {
+        if (getenv("SEV_VERBOSE"))
+            fprintf(stderr, "assertion: %s\n", e.what());
         return "VerifAssertionError";
     } catch (const DivisionByZeroError &) {
         return "DivisionByZeroError";
